@@ -14,6 +14,9 @@ impl World {
     /// `Weak::upgrade` with the C08 oracle. `target`: the object the weak was made from (None = Weak::new()).
     /// Returns the handle index of the parked result, if any.
     pub fn upgrade_weak(&self, wptr: *const AnyWeak, target: Option<ObjId>, park: bool) -> Option<usize> {
+        if !crate::compat::HAS_WEAK {
+            return None;
+        }
         let top = self.m.borrow().frames.is_empty();
         if let Some(o) = target {
             let at_limit = {
